@@ -134,6 +134,25 @@ func init() {
 		}
 		return "kept " + strconv.Itoa(len(all))
 	}
+	// hbare alg chunk...: a Hasher on its own (hashio.NewHasher) is an io.Writer too: fed with Write, io.WriteString and fmt.Fprint in
+	// turn it reports the length and digest of everything it was given
+	ops["hbare"] = func(a []string) string {
+		h, err := hashio.NewHasher(arg(a, 0))
+		if err != nil {
+			return "err"
+		}
+		for k, c := range a[1:] {
+			switch k % 3 {
+			case 0:
+				io.WriteString(h, c)
+			case 1:
+				h.Write([]byte(c))
+			default:
+				fmt.Fprint(h, c)
+			}
+		}
+		return fmt.Sprintf("%d:%x", h.Size(), h.Sum(nil))
+	}
 	ops["hwrite"] = func(a []string) string { return hwriteWith(a, false) }
 	// hwrites: the same stream, but every second chunk is handed over with io.WriteString (and fmt.Fprint for every
 	// third): however the bytes are delivered to the writer, they are passed through, counted and hashed
